@@ -169,4 +169,14 @@ CLAIMS['C03'] = {
     'note': _NOTE,
 }
 
+CLAIMS['C14'] = {
+    'text': 'interval()/delay(): the remaining-delay formula as a rational-function normal '
+            'form, the yielded value being the clock re-read after the wait, the three-way '
+            'sign split (raise / suspend / postpone) with its guards on every path, early '
+            'rejection of negative periods, must-yield for every step and positivity of the '
+            'delays handed to suspend. The tick grid as numbers (float accumulation) is not '
+            'decided.',
+    'note': _NOTE,
+}
+
 NOT_APPLICABLE = {}
